@@ -375,7 +375,13 @@ def behaviour(module, units):
     from .engine import vm_outcome
     from .nslapi import link, listing
 
-    out = {"listing": listing(module), "metadata_functions": sorted(str(f) for f in module.Metadata.get("functions", [])), "runs": []}
+    out = {"listing": listing(module), "metadata_functions": sorted(str(f) for f in module.Metadata.get("functions", [])),
+           "metadata_types": sorted(repr(t) for t in module.Metadata.get("types", [])), "metadata_keys": sorted(module.Metadata.keys()),
+           "globals": sorted((k, str(v)) for k, v in module.Globals.items()), "imports": sorted(module.Imports),
+           "function_types": sorted((n, str(f.Type.ReturnType), [(a, str(t)) for a, t in f.Type.Arguments.items()]) for n, f in module.Functions.items()),
+           "constants": sorted((n, sorted((c.Reference, repr(c.Value), str(c.Type)) for c in f.Constants)) for n, f in module.Functions.items()),
+           "runs": []}
+    out = _jsonable(out)
     try:
         program = link(module)
     except BaseException as e:
@@ -433,7 +439,7 @@ def store(prop, case, agg, units=None):
         except BaseException as e:
             got = {"load": type(e).__name__ + ": " + str(e)[:100]}
         if got != want:
-            what = next((k for k in ("load", "link", "listing", "metadata_functions", "runs") if got.get(k) != want.get(k)), "?")
+            what = next((k for k in ("load", "link", "listing", "metadata_functions", "metadata_types", "metadata_keys", "globals", "imports", "function_types", "constants", "runs") if got.get(k) != want.get(k)), "?")
             agg.fail({"key": f"{prop}|{case['fam']}|same-process-reload-differs|{what}|opt={opt}", "source": src, "options": {"optimize": bool(opt)},
                       "expected": str(want.get(what))[:300], "observed": str(got.get(what))[:300]})
         _STORE["batch"].append({"stem": stem, "fam": case["fam"], "opt": opt, "want": want, "source": src,
